@@ -70,6 +70,8 @@ class ExprMixin:
             if root is not None and root.outer is not None:
                 return V(("free", name))
             raise AnalysisError("unresolved name %r at %s" % (name, self.here(e) if e is not None else module.name))
+        if r[0] == "const" and name in getattr(r[2], "mutable_globals", ()):
+            return V(("free", r[2].name + "." + name))
         return self.static_value(r)
 
     def name_is_local(self, name):
